@@ -283,6 +283,11 @@ class Interp:
             if name == "__bases__":
                 return tuple(v.bases(self.loader))
             found = v.find(name, self.loader)
+            if found and found[1] == "attr" and any(isinstance(b, ExtClass) and b.name in ("Enum", "IntEnum", "enum.Enum") for b in self.mro(v)):
+                key = ("enum", v.qualname, name)
+                if key not in self.singletons:
+                    self.singletons[key] = self.alloc(v, {"name": name, "_name_": name, "value": name}, tag=f"{v.name}.{name}")
+                return self.singletons[key]
             if found:
                 owner, kind, thing = found
                 if kind == "method":
